@@ -107,7 +107,16 @@ def expand_rules(chk, db):
         nd3 += 1
         ap = [c for c in f.calls() if (callee(c) or "").endswith("::appendStrip") and txt(strip(call_object(c))) == "surpluses"]
         ins = [c for c in f.calls() if (callee(c) or "").endswith("::addSortedIndexes")]
-        ok = len(ap) == 1 and len(ins) == 1 and ins[0].get("l", 0) < ap[0].get("l", 0) and txt(strip(call_args(ap[0])[0])) == "points.getSlot(point)"
+        ok = len(ap) == 1 and len(ins) == 1 and bool(must_pass_before(f, ap[0], lambda x: x is ins[0] or any(y is ins[0] for y in walk(x))))
+        if ok:
+            # the slot is looked up in the member `points` for the very index that was inserted
+            slot = strip(call_args(ap[0])[0])
+            if slot is not None and slot.get("k") == "DeclRefExpr":
+                d_ = f.locals().get(slot.get("did"))
+                slot = strip(d_["c"][0]) if d_ is not None and d_.get("c") else slot
+            ok = slot is not None and slot.get("k") == "CXXMemberCallExpr" and (callee(slot) or "").endswith("::getSlot") and \
+                short((strip(call_object(slot)) or {}).get("field") or "") == "points" and txt(strip(call_object(ins[0]))) == txt(strip(call_object(slot))) and \
+                var_of(call_args(slot)[0]) is not None and var_of(call_args(slot)[0]) == var_of(call_args(ins[0])[0])
         chk.ob("C09-D3.expand", f.key, "surplus strip inserted at the slot of the new point after the index is inserted", ok, f.where)
     chk.floor("C09-D3.expand", nd3, 6, "expandGrid implementations")
     # the strip insertion kernel
